@@ -89,3 +89,14 @@ func init() {
 			"for k := range op.Keys {\n\t\t\top.Keys[k].RHS = op.Keys[k].LHS\n\t\t}\n", "", "C08-D4", "summarize tail keys"},
 	)
 }
+
+func init() {
+	addMutants(
+		Mutant{"C11", "c11-vng-metadata-unchecked", "vng/object.go", "readMetadata",
+			"if err := checkMetadata(zctx, meta, true); err != nil {\n\t\treturn nil, fmt.Errorf(\"corrupt VNG: %w\", err)\n\t}\n", "if err := checkMetadata(zctx, meta, true); err != nil && false {\n\t\treturn nil, fmt.Errorf(\"corrupt VNG: %w\", err)\n\t}\n", "C11-V1", "readMetadata validates"},
+		Mutant{"C11", "c11-vng-check-skips-named-lookup", "vng/object.go", "checkMetadata",
+			"_, err := zctx.LookupTypeNamed(meta.Name, zed.TypeNull)\n\t\treturn err", "return nil", "C11-V1", "performs (*super.Context).LookupTypeNamed"},
+		Mutant{"C11", "c11-vng-check-default-accepts", "vng/object.go", "checkMetadata",
+			"return fmt.Errorf(\"unknown or missing metadata: %T\", meta)", "return nil", "C11-V1", "checkMetadata coverage"},
+	)
+}
